@@ -120,7 +120,7 @@ class C05(Prop):
                                rng.choice(['attr', 'derive']), traits, -1, bnd=bnd, targs=targs))
         # misplaced arguments
         mis = []
-        for a, arg, where, mode in itertools.product(G.ATTRS, ['ignore', 'reverse', 'key', 'by'], ['type', 'variant'],
+        for a, arg, where, mode in itertools.product(G.ATTRS, ['ignore', 'reverse', 'key', 'by'], ['type', 'variant', 'enum-type'],
                                                      ['attr', 'derive']):
             if arg == 'reverse' and a not in ('ord', 'partial_ord'):
                 continue
@@ -136,6 +136,8 @@ class C05(Prop):
             f = sx.field(sx.tid('u8'))
             if where == 'type':
                 it = sx.struct('X', sx.unnamed([f]), attrs=attrs)
+            elif where == 'enum-type':     # the type itself, when it is an enum (its own code path)
+                it = sx.enum('E', [sx.variant('A', sx.unnamed([f])), sx.variant('B')], attrs=attrs)
             else:
                 it = sx.enum('E', [sx.variant('A', sx.unnamed([f]), attrs=attrs), sx.variant('B')])
             tl = [(t, None) for t in mtraits]
